@@ -12,6 +12,7 @@
     about a number the peer writes into a 60-byte message. *)
 From Coq Require Import List ZArith NArith Bool Lia.
 From C33 Require Import C33.Model C33.ProofsBase C33.ProofsMain C33.ProofsStep C33.ProofsThm.
+From C33 Require Import C33.Streams C33.ProofsStreams C33.ProofsServe.
 Import ListNotations.
 Open Scope Z_scope.
 
@@ -110,3 +111,151 @@ Theorem C33_light_block_example :
      = Ok (init, [Post 2%N (mkBlk 5 1%N 0%N [Some 11; Some 16; Some 17]%N)]).
 Proof. exact add_lt_total_example. Qed.
 Print Assumptions C33_light_block_example.
+
+(** ** stream receive paths (Streams.v) *)
+
+(** downloadBlockFromPeerOld: whatever a peer answers to a block request - no
+    stream, a reset, a short / wrong header, an oversized, truncated or
+    undecodable frame, a reply without Message, with an empty item list, with
+    several items, with a first item that carries nothing, a transaction, or a
+    block of another height - the reply is accepted or dropped; there is no
+    panic (the caller is a per-height goroutine without recover) *)
+Theorem C33_download_reply_never_panics : forall h w,
+  match from_peer h w with Panicked _ | Died => False | Done _ | Dropped _ => True end.
+Proof. exact from_peer_no_panic. Qed.
+Print Assumptions C33_download_reply_never_panics.
+
+(** at the level of Go values the decoder is safe exactly when the first item
+    is not a nil pointer; replies decoded from the wire never have one *)
+Theorem C33_download_reply_go_level :
+  (forall h r, first_item_present r = true ->
+     match extract h r with Panicked _ | Died => False | Done _ | Dropped _ => True end)
+  /\ (forall h tl, extract h (Some (None :: tl)) = Panicked W_NILITEM)
+  /\ (forall m, first_item_present (option_map (map lift_item) m) = true).
+Proof. split; [exact extract_guarded|split; [exact extract_nil_item_panics|exact lift_present]]. Qed.
+Print Assumptions C33_download_reply_go_level.
+
+(** malformed replies are rejected: a reply is accepted only if its first item
+    is a block of the requested height, and that block is what is handed on *)
+Theorem C33_download_accepts_only_requested : forall h w b,
+  from_peer h w = Done b -> bk_h b = h /\ exists tl, w = WMsg (Some (WIblock b :: tl)).
+Proof. exact from_peer_accepts. Qed.
+Print Assumptions C33_download_accepts_only_requested.
+
+(** handleEventDownloadBlock: no per-height goroutine (no recover) and no
+    re-download in checkTask panics, for every range, task list and script of
+    peer replies; the model's fuel is never the reason for giving up *)
+Theorem C33_download_job_survives : forall j,
+  jr_dead (run_job j) = false /\ jr_aborted (run_job j) = false.
+Proof. exact job_never_dies. Qed.
+Print Assumptions C33_download_job_survives.
+
+Theorem C33_download_loop_total : forall h wires ts,
+  match fst (download_block h wires ts) with Panicked _ | Died => False | Done _ | Dropped _ => True end
+  /\ fst (download_block h wires ts) <> Dropped D_FUEL.
+Proof. intros. destruct (download_block_spec h wires ts) as (A & B & _). split; assumption. Qed.
+Print Assumptions C33_download_loop_total.
+
+(** every block the job hands to the blockchain module was sent by that peer,
+    for that height, as the first item of one of its replies *)
+Theorem C33_download_job_delivers_sent : forall j d,
+  In d (jr_del (run_job j)) -> sent_by (j_script j) d.
+Proof. exact job_delivers_sent. Qed.
+Print Assumptions C33_download_job_delivers_sent.
+
+(** heights 5..6 from two peers: peer 0 answers height 5 with an empty item
+    list and height 6 with a block of height 7, then (second request) with
+    nothing; peer 1 answers 5 correctly and 6 only at the second request: 5 is
+    delivered by peer 1 in phase one, 6 by peer 1 in phase two *)
+Theorem C33_download_job_example :
+  let j := mkJob 5 6 [mkTask 0 9; mkTask 1 9]
+             [(0%N, 5, [WMsg (Some [])]); (0%N, 6, [WMsg (Some [WIblock (mkB 7 3)]); WMsg None]);
+              (1%N, 5, [WMsg (Some [WIblock (mkB 5 1)])]);
+              (1%N, 6, [WBadHdr; WMsg (Some [WIblock (mkB 6 2); WItx])])] in
+  run_job j = mkJres 0 false false [(5, 1%N, 1%N); (6, 1%N, 2%N)]
+                     [(5, [0%N; 1%N]); (6, [0%N; 1%N]); (6, [0%N; 1%N])].
+Proof. vm_compute. reflexivity. Qed.
+Print Assumptions C33_download_job_example.
+
+(** serving side, whatever the blockchain module answers (as long as it answers):
+    both stream handlers survive every request; the only panic is the field
+    read through the nil Message of an old-protocol request (wrong header or
+    empty message), which the stream wrapper's recover turns into a reset *)
+Theorem C33_serve_handlers_total : forall chain,
+  (forall s e, chain s e <> Died) ->
+  (forall r, serve_survives (serve_old chain r) = true)
+  /\ (forall r, serve_survives (serve_new chain r) = true)
+  /\ (forall r w, snd (serve_old chain r) = Panicked w -> w = W_NILREQ /\ (r = RdZero \/ r = RdMsg None))
+  /\ (forall r, match snd (serve_new chain r) with Panicked _ | Died => False | _ => True end).
+Proof.
+  intros chain Hc.
+  split; [intros r; apply serve_old_survives; exact Hc|].
+  split; [intros r; apply serve_new_survives; exact Hc|].
+  split; [intros r w; apply serve_old_panic_site; exact Hc|].
+  intros r. apply serve_new_no_panic. exact Hc.
+Qed.
+Print Assumptions C33_serve_handlers_total.
+
+(** ... in front of the real blockchain module (ProcGetBlockDetailsMsg, blocks
+    0..tip, memory for 257 pointers): every int64 request is survived and every
+    range handed on spans at most 257 blocks.  FALSE for the code as it is. *)
+Definition C33_serve_request_full : Prop := forall tip cap r,
+  int64 tip -> 257 <= cap -> sreq_int64 r ->
+  serve_survives (serve_old (chain_get tip cap) r) = true
+  /\ forall s e, fst (serve_old (chain_get tip cap) r) = Some (s, e) -> span_ok s e = true.
+
+(** StartHeight = -2^40, EndHeight = 2^63-1: End-Start wraps to a negative
+    int64, passes "> 256" here and ">= 1000" in the blockchain module, which
+    then sizes a slice with tip+2^40+1 elements: fatal out of memory *)
+Theorem C33_serve_request_refuted : ~ C33_serve_request_full.
+Proof.
+  intros H. destruct serve_old_real_dies as (Hi & Hd & _).
+  destruct (H 10 2147483648 req_wrap) as [Hs _]; [unfold int64, two63; lia|lia|exact Hi|].
+  rewrite Hd in Hs. discriminate.
+Qed.
+Print Assumptions C33_serve_request_refuted.
+
+Theorem C33_serve_request_partial : forall tip cap r,
+  int64 tip -> 257 <= cap -> sreq_int64 r -> sreq_nonneg r = true ->
+  serve_survives (serve_old (chain_get tip cap) r) = true
+  /\ forall s e, fst (serve_old (chain_get tip cap) r) = Some (s, e) -> span_ok s e = true.
+Proof. exact serve_old_real_partial. Qed.
+Print Assumptions C33_serve_request_partial.
+
+Theorem C33_serve_request_example :
+  sreq_nonneg (RdMsg (Some (3, 200))) = true
+  /\ serve_old (chain_get 10 1000) (RdMsg (Some (3, 200))) = (Some (3, 200), Done [3; 4; 5; 6; 7; 8; 9; 10])
+  /\ sreq_nonneg req_wrap = false
+  /\ serve_old (chain_get 10 2147483648) req_wrap = (Some (- 1099511627776, two63 - 1), Died).
+Proof. vm_compute. auto. Qed.
+Print Assumptions C33_serve_request_example.
+
+(** peer-info handlers: for every channel, every pair of library oracles
+    (IsPublicIP, NewMultiaddr), every external address and every request
+    (undecodable, wrong header, nil Message, any three field values) both
+    version handlers reply or drop without a panic; checkVersionLimit, which
+    runs on the Version string of a peer's answer in a goroutine without
+    recover, returns for every limit and every string *)
+Theorem C33_peer_handlers_total :
+  (forall e ext r, match snd (handle_version e ext r) with Panicked _ | Died => False | _ => True end)
+  /\ (forall e ext r, match snd (handle_version_old e ext r) with Panicked _ | Died => False | _ => True end)
+  /\ (forall a, exists ip, parse_ip a = Done ip)
+  /\ (forall lim ver, exists b, check_version_limit lim ver = Done b)
+  /\ (forall lim r, match refresh_one lim r with Panicked _ | Died => False | _ => True end).
+Proof.
+  split; [exact handle_version_total|]. split; [exact handle_version_old_total|].
+  split; [exact parse_ip_total|]. split; [exact check_version_limit_total|exact refresh_one_total].
+Qed.
+Print Assumptions C33_peer_handlers_total.
+
+(** "/ip4/8.8.8.8/tcp/13802" read as ip 8.8.8.8; limit 6.8.9 admits x@6.8.10,
+    rejects x@6.8 (too few parts), x@6.8.8 and a string with two '@' *)
+Theorem C33_peer_handlers_example :
+  parse_ip [47;105;112;52;47;56;46;56;46;56;46;56;47;116;99;112;47;49;51;56;48;50]%N = Done [56;46;56;46;56;46;56]%N
+  /\ parse_ip [47;105;112;52;47;56;46;56;46;56;46;56;47;116;99;112;47;120]%N = Done []
+  /\ check_version_limit [54;46;56;46;57]%N [120;64;54;46;56;46;49;48]%N = Done true
+  /\ check_version_limit [54;46;56;46;57]%N [120;64;54;46;56]%N = Done false
+  /\ check_version_limit [54;46;56;46;57]%N [120;64;54;46;56;46;56]%N = Done false
+  /\ check_version_limit [54;46;56;46;57]%N [120;64;64;54;46;56;46;57]%N = Done false.
+Proof. vm_compute. repeat split. Qed.
+Print Assumptions C33_peer_handlers_example.
